@@ -144,7 +144,7 @@ func nullInColl(t *ctype, a *aval) bool {
 
 // runCase: Encode the Go value of representation r for a, then Decode the bytes into *interface{} and into the same representation.
 func runCase(id string, t *ctype, r *rep, a *aval, ver primitive.ProtocolVersion) *caseRec {
-	rec := &caseRec{Kind: "case", Id: id, Ver: int(ver), TypeCql: t.dt.AsCql(), TypeCoq: t.coq(), Depth: t.depth(), Rep: r.String(), ValCoq: a.coq(),
+	rec := &caseRec{Kind: "case", Id: id, Ver: int(ver), TypeCql: t.dt.AsCql(), TypeCoq: t.coq(), Depth: t.depth(), Rep: r.String(), ValCoq: inSourceOrder(r, a).coq(),
 		Unordered: hasMultiMap(r, a), NullInColl: nullInColl(t, a)}
 	codec, err := datacodec.NewCodec(t.dt)
 	if err != nil {
